@@ -14,7 +14,21 @@ import (
 	"time"
 )
 
-const Root = "/verif"
+// Root is where evidence/ and replays/ are written (VERIF_OUT redirects it for experiments on scratch copies).
+var Root = func() string {
+	if d := os.Getenv("VERIF_OUT"); d != "" {
+		return d
+	}
+	return "/verif"
+}()
+
+// RepoDir is the risor tree the binary was built from.
+var RepoDir = func() string {
+	if d := os.Getenv("VERIF_REPO_DIR"); d != "" {
+		return d
+	}
+	return "/repo"
+}()
 
 // Run is the state of one check invocation.
 type Run struct {
@@ -68,7 +82,7 @@ func New(id, tier, level string) *Run {
 	seed, _ := strconv.Atoi(os.Getenv("VERIF_SEED"))
 	r := &Run{ID: id, Tier: tier, Level: level, Seed: seed, start: time.Now(),
 		Cov: map[string]any{}, distinct: map[string]struct{}{}, knownHits: map[string]int{}, knownFirst: map[string]string{}, exhaustive: true}
-	b, err := os.ReadFile(filepath.Join(Root, "known_findings.json"))
+	b, err := os.ReadFile("/verif/known_findings.json")
 	if err == nil {
 		var ff findingsFile
 		if err := json.Unmarshal(b, &ff); err != nil {
@@ -185,6 +199,15 @@ func (r *Run) Finish() {
 	}
 	if len(r.samples) == 0 {
 		r.samples = append(r.samples, "no sample recorded")
+	}
+	if f := os.Getenv("VERIF_DUMP_OUTCOMES"); f != "" {
+		ks := make([]string, 0, len(r.distinct))
+		for k := range r.distinct {
+			ks = append(ks, k)
+		}
+		sort.Strings(ks)
+		b, _ := json.Marshal(ks)
+		os.WriteFile(f, b, 0o644)
 	}
 	cov["samples"] = r.samples
 	cov["exhaustive"] = r.exhaustive
